@@ -111,6 +111,20 @@ func g8RunVrfX(f []string) string {
 	for _, c := range g8VrfCases {
 		okc = okc || c == cse
 	}
+	// gammaT.<i>.<r> / gammaTbad.<i>: Gamma = x·H + T_i
+	torI, torR := 0, 0
+	if p := strings.Split(cse, "."); (p[0] == "gammaT" && len(p) == 3) || (p[0] == "gammaTbad" && len(p) == 2) {
+		i, e1 := strconv.Atoi(p[1])
+		r := 0
+		var e2 error
+		if len(p) == 3 {
+			r, e2 = strconv.Atoi(p[2])
+		}
+		if e1 != nil || e2 != nil || i < 1 || i > 7 || r < 0 || r > 7 {
+			return "bad-op"
+		}
+		cse, torI, torR, okc = p[0], i, r, true
+	}
 	if !ok1 || !ok2 || !ok3 || !ok4 || !okc || len(seed) != 32 || len(oseed) != 32 ||
 		bytes.Equal(seed, oseed) || bytes.Equal(alpha, oalpha) {
 		return "bad-op"
@@ -155,6 +169,41 @@ func g8RunVrfX(f []string) string {
 	}
 	Y, Gamma := mulB(x), mul(x, H)
 	U1, V1, U2, V2 := mulB(k), mul(k, H), mulB(k2), mul(k2, H)
+	// torsion: T_i = i · (the canonical point of order 8)
+	var GammaT *edwards25519.Point
+	var c4, s4 *edwards25519.Scalar
+	if torI > 0 {
+		t8b, _ := unhex(g8SmallOrderKeys[4])
+		T8 := g8Pt(t8b)
+		mulSmall := func(n int, p *edwards25519.Point) *edwards25519.Point {
+			acc := edwards25519.NewIdentityPoint()
+			for j := 0; j < n; j++ {
+				acc = new(edwards25519.Point).Add(acc, p)
+			}
+			return acc
+		}
+		Ti := mulSmall(torI, T8)
+		GammaT = new(edwards25519.Point).Add(Gamma, Ti)
+		if cse == "gammaT" {
+			// the key holder searches a nonce whose challenge is ≡ r (mod 8): then c·T_i = r·T_i
+			rTi := mulSmall(torR, Ti)
+			found := false
+			for try := 0; try < 2000 && !found; try++ {
+				kk := g8Uniform(append([]byte(fmt.Sprintf("g8-tor-%d/", try)), seed...))
+				Uk := mulB(kk)
+				Vk := new(edwards25519.Point).Subtract(mul(kk, H), rTi)
+				cc := g8Challenge(H, GammaT, Uk, Vk)
+				if int(cc.Bytes()[0]&7) == torR {
+					k2, U2, V2 = kk, Uk, mul(kk, H)
+					c4, s4 = cc, edwards25519.NewScalar().MultiplyAdd(cc, x, kk)
+					found = true
+				}
+			}
+			if !found {
+				return "craft-failed"
+			}
+		}
+	}
 	c1 := g8Challenge(H, Gamma, U1, V1)
 	c2 := g8Challenge(H, Gamma, U2, V2)
 	s1 := edwards25519.NewScalar().MultiplyAdd(c1, x, k)
@@ -177,6 +226,9 @@ func g8RunVrfX(f []string) string {
 	voc.s("x2", x2)
 	voc.s("c1", c1)
 	voc.s("c2", c2)
+	if c4 != nil {
+		voc.s("c4", c4)
+	}
 	voc.s("s1", s1)
 	voc.s("s2", s2)
 	voc.p("0", edwards25519.NewIdentityPoint())
@@ -209,6 +261,10 @@ func g8RunVrfX(f []string) string {
 		pi = mk(V1, c1, s1)
 	case "gammaY":
 		pi = mk(Y, c1, s1)
+	case "gammaT":
+		pi = mk(GammaT, c4, s4)
+	case "gammaTbad":
+		pi = mk(GammaT, c1, s1)
 	case "otherkey":
 		key = pk2
 	case "othermsg":
@@ -237,7 +293,13 @@ func g8RunVrfX(f []string) string {
 	if vtrace == nil {
 		sb.WriteString(" -")
 	} else {
-		fmt.Fprintf(&sb, " H=%s U=%s V=%s c'=%s", voc.nameP(vtrace[1]), voc.nameP(vtrace[3]), voc.nameP(vtrace[4]), voc.nameS(vtrace[6]))
+		vName := voc.nameP(vtrace[4])
+		if cse == "gammaTbad" {
+			// V = k·H − (c1 mod 8)·T_i: its torsion part depends on the residue of the genuine
+			// challenge, a fact the model does not have (it leaves the point unnamed)
+			vName = "~"
+		}
+		fmt.Fprintf(&sb, " H=%s U=%s V=%s c'=%s", voc.nameP(vtrace[1]), voc.nameP(vtrace[3]), vName, voc.nameS(vtrace[6]))
 	}
 	return sb.String()
 }
